@@ -44,6 +44,13 @@ type Req struct {
 	// really started through interp.DefaultExecHandler(ExecKillMs ms) with PATH=/usr/bin:/bin. Only the
 	// fixed, harmless templates of cmd/c31 (sleep) use this.
 	ExecKillMs *int `json:"exec_kill_ms"`
+	// Lang: "" = bash, "zsh" = syntax.LangZsh (for the &! and &| disowned jobs)
+	Lang string `json:"lang"`
+	// Files are written (mode 0755) into the scratch directory before Run, e.g. an executable script
+	// without a #! line, which the exec handler runs with a nested interpreter (ENOEXEC).
+	Files map[string]string `json:"files"`
+	// CheckLate: after a cancelled Run has returned, measure whether stdout still grows.
+	CheckLate bool `json:"check_late"`
 }
 
 // Resp is what the worker observed.
@@ -59,6 +66,7 @@ type Resp struct {
 	ElapsedUs int64             `json:"elapsed_us"` // start of Run -> return
 	LatencyUs int64             `json:"latency_us"` // cancel -> return (only with CancelMs >= 0 and cancel before return)
 	Cancelled bool              `json:"cancelled"`  // the cancel happened before Run returned
+	LateBytes int               `json:"late_bytes"` // bytes written to stdout between 100 and 300 ms AFTER Run returned (CheckLate)
 }
 
 const outCap = 1 << 16
@@ -106,11 +114,21 @@ func RunOne(req Req, dir string, hard time.Duration) (resp Resp) {
 			resp.Panic = fmt.Sprint(r)
 		}
 	}()
-	p := syntax.NewParser(syntax.Variant(syntax.LangBash))
+	lang := syntax.LangBash
+	if req.Lang == "zsh" {
+		lang = syntax.LangZsh
+	}
+	p := syntax.NewParser(syntax.Variant(lang))
 	file, err := p.Parse(strings.NewReader(req.Src), "")
 	if err != nil {
 		resp.ParseErr = err.Error()
 		return
+	}
+	for name, content := range req.Files {
+		if strings.ContainsAny(name, "/\\") {
+			continue
+		}
+		os.WriteFile(dir+"/"+name, []byte(content), 0o755)
 	}
 	out := &capWriter{}
 	var stdin io.Reader
@@ -230,6 +248,16 @@ loop:
 		resp.LatencyUs = res.at.Sub(cancelAt).Microseconds()
 	}
 	resp.Panic = res.panic
+	if req.CheckLate && resp.Cancelled {
+		time.Sleep(100 * time.Millisecond)
+		out.mu.Lock()
+		n1 := out.total
+		out.mu.Unlock()
+		time.Sleep(200 * time.Millisecond)
+		out.mu.Lock()
+		resp.LateBytes = out.total - n1
+		out.mu.Unlock()
+	}
 	out.mu.Lock()
 	resp.Out = hexs(out.buf.Bytes())
 	out.mu.Unlock()
